@@ -517,6 +517,9 @@ RULES = {
     "R7": Rule("R7", "&mut V[range] -> &mut V.as_mut_slice()[range] (V: Vec<T>)",
                "& mut self . data [ $$r ]",
                "& mut self . data . as_mut_slice ( ) [ $$r ]", guard=_has_range),
+    "R7a": Rule("R7a", "&mut a.data[range] -> &mut a.data.as_mut_slice()[range] (Vec<T>)",
+                "& mut a . data [ $$r ]",
+                "& mut a . data . as_mut_slice ( ) [ $$r ]", guard=_has_range),
     "R7o": Rule("R7o", "&mut other.data[range] -> &mut other.data.as_mut_slice()[range] (Vec<T>)",
                 "& mut other . data [ $$r ]",
                 "& mut other . data . as_mut_slice ( ) [ $$r ]", guard=_has_range),
@@ -558,6 +561,7 @@ RULES = {
     # debug_assert! statements are dropped (not compiled in release builds). Where a unit uses this rule the
     # debug-profile clause of C14 is not decided for that function (reported in the evidence as a rewrite).
     "R14": Rule("R14", "debug_assert!(..); -> (dropped)", "debug_assert ! ( $$c ) ;", ""),
+    "R14e": Rule("R14e", "debug_assert_eq!(..); -> (dropped)", "debug_assert_eq ! ( $$c ) ;", ""),
     # operator UFCS (Rust's own definition of the operators); works around a Verus internal error on reference operands
     "R3a": Rule("R3a", "(X) + (Y) -> Add::add((X), (Y))", "( $$x ) + ( $$y )", "Add :: add ( ( $$x ) , ( $$y ) )"),
     "R3s": Rule("R3s", "(X) - (Y) -> Sub::sub((X), (Y))", "( $$x ) - ( $$y )", "Sub :: sub ( ( $$x ) , ( $$y ) )"),
@@ -598,6 +602,9 @@ RULES = {
     "R10y": Rule("R10y", "for (a, &b) in A.iter_mut().zip(B) { BODY } (B: &[T]) -> index loop over min(len A, len B)",
                  "for ( $a , & $b ) in $$x . iter_mut ( ) . zip ( $y ) { $$body }",
                  "{ let mut i__ = 0 ; let n__ = Ord :: min ( $$x . len ( ) , $y . len ( ) ) ; while i__ < n__ { let $a = & mut $$x [ i__ ] ; let $b = $y [ i__ ] ; i__ += 1 ; $$body } }"),
+    "R10x": Rule("R10x", "for (a, b) in A.iter_mut().zip(B) { BODY } (A: &mut [T], B: &[T]) -> index loop over min(len A, len B), b = &B[i]",
+                 "for ( $a , $b ) in $x . iter_mut ( ) . zip ( $y ) { $$body }",
+                 "{ let mut i__ = 0 ; let n__ = Ord :: min ( $x . len ( ) , $y . len ( ) ) ; while i__ < n__ { let $a = & mut $x [ i__ ] ; let $b = & $y [ i__ ] ; i__ += 1 ; $$body } }"),
     "R10w": Rule("R10w", "for a in V.iter_mut() { BODY } (V: Vec<T>) -> index loop",
                  "for $a in $$v . iter_mut ( ) { $$body }",
                  "{ let mut i__ = 0 ; while i__ < $$v . len ( ) { { let $a = & mut $$v . as_mut_slice ( ) [ i__ ] ; i__ += 1 ; $$body } } }"),
